@@ -636,9 +636,15 @@ impl<'p> Interp<'p> {
 			Mode::Real => V::F(self.fl_from_i(0)),
 		}
 	}
+	/// assert a path-independent fact about an uninterpreted function (sqrt). Inside a speculative branch
+	/// the assertion lives in a temporary solver scope, so it is remembered and asserted again in the
+	/// enclosing scope when the branch has been merged.
 	pub fn axiom(&mut self, t: crate::term::T) -> R<()> {
 		if self.tm.as_bool(t) == Some(true) {
 			return Ok(());
+		}
+		if !self.spec_marks.is_empty() {
+			self.pending_axioms.push(t);
 		}
 		let sol = self.sol.as_mut().unwrap();
 		sol.assert(&self.tm, t);
